@@ -224,6 +224,23 @@ fn w_fork_ids() {
     kani::cover!(ru.is_ok() && rg.is_err() && rp.is_ok());
 }
 
+// ---- C17/C06: posix::chdir is exactly one chdir(2) on the prepared C string: nothing else (in particular no std path handling, which
+// allocates for long paths) happens between fork and exec
+#[kani::proof]
+#[kani::stub(crate::posix::check_err, model_check_err)]
+fn w_chdir() {
+    let bytes = [b'/', b't', 0u8];
+    let c = std::ffi::CStr::from_bytes_with_nul(&bytes).unwrap();
+    unsafe { m::CHDIR_CALLS = 0; }
+    let r = chdir(c);
+    unsafe {
+        assert!(m::CHDIR_CALLS == 1 && m::CHDIR_ARG == c.as_ptr());
+        if let Err(e) = &r { assert!(e.raw_os_error() == Some(m::ERRNO)); }
+    }
+    kani::cover!(r.is_ok());
+    kani::cover!(r.is_err());
+}
+
 // ---- C05: the handle for an inherited standard stream never closes descriptor 0/1/2
 #[kani::proof]
 #[kani::stub(<std::os::fd::OwnedFd as std::ops::Drop>::drop, model_ownedfd_drop)]
